@@ -223,3 +223,19 @@ class WriterEvents:
                     f"after append_data at line {a.lineno} some normal path "
                     "reaches the end of the function without finalize()")
         return res
+
+
+def dropped_lazy_effects(fnode):
+    """Expression statements that build a lazy iterator and drop it:
+    ``map(f, xs)``, ``filter(f, xs)``, ``(f(x) for x in xs)`` as a statement
+    never call f.  Returns the offending expression nodes."""
+    out = []
+    for n in ast.walk(fnode):
+        if isinstance(n, ast.Expr):
+            v = n.value
+            if isinstance(v, ast.GeneratorExp):
+                out.append(v)
+            elif isinstance(v, ast.Call) and isinstance(
+                    v.func, ast.Name) and v.func.id in ("map", "filter"):
+                out.append(v)
+    return out
